@@ -149,6 +149,24 @@ def r2_associativity(ctx: Ctx) -> None:
     ctx.check(bool(ok), "shunting_yard:drain", "remaining operators are appended last-in first-out")
     rets = returns_of(sy.node)
     ctx.check(len(rets) == 1 and unparse(rets[0].value) == "output_queue", "shunting_yard:returns", "returns the postfix queue")
+    # closing parenthesis: everything above the matching "(" goes to the output, then the "(" itself is discarded
+    rp = [s_ for s_ in walk_no_nested(sy.node) if isinstance(s_, ast.If) and "RPAREN" in unparse(s_.test)]
+    if len(rp) != 1:
+        raise AnalysisError("shunting_yard: closing-parenthesis arm not found")
+    body = rp[0].body
+    unwind = [s_ for s_ in body if isinstance(s_, ast.While)]
+    if len(unwind) != 1:
+        raise AnalysisError("shunting_yard: the closing-parenthesis arm does not unwind with one loop")
+    moved = [c for c in calls_in(unwind[0]) if unparse(c.func) == "output_queue.append"]
+    ctx.check(len(moved) == 1, "shunting_yard:paren-unwind", "operators above the open parenthesis move to the output")
+    after = body[body.index(unwind[0]) + 1:]
+    drops = [s_ for s_ in after if (isinstance(s_, ast.Expr) and unparse(s_.value) in ("operator_stack.pop()", "operator_stack.pop(-1)", "operator_stack.pop(lparen_index)"))
+             or (isinstance(s_, ast.Delete) and unparse(s_.targets[0]) in ("operator_stack[-1]", "operator_stack[lparen_index]", "operator_stack[lparen_index:]"))
+             or (isinstance(s_, ast.Assign) and unparse(s_.targets[0]) == "operator_stack" and unparse(s_.value) in ("operator_stack[:-1]", "operator_stack[:lparen_index]"))]
+    ctx.check(len(drops) == 1, "shunting_yard:paren-discarded", "the open parenthesis itself is popped and dropped: left on the stack it keeps stopping the pop loop, so "
+              "`2*(3)+4` groups as 2*((3)+4)")
+    miss = [s_ for s_ in body if isinstance(s_, ast.If) and always_raises(s_.body) and "lparen" in unparse(s_.test).lower()]
+    ctx.check(len(miss) == 1, "shunting_yard:mismatched-paren", "a closing parenthesis without an open one raises")
     # unary/binary classification in the parser
     pe = ctx.repo.func(PSTATES, "_parse_expression")
     parents = {}
@@ -476,4 +494,11 @@ def rm_no_process_lifetime_results(ctx: Ctx) -> None:
     state_rule(ctx)
 
 
-RULES = [r1_precedence_order, r2_associativity, r3_evaluation_dispatch, r4_literal_bases, r5_single_evaluator, r6_identifier_values, rb_binding_agreement, rm_no_process_lifetime_results]
+def ru_names_bound(ctx: Ctx) -> None:
+    """a local read but never bound raises NameError for every input that reaches the statement (shared rule, names.py)"""
+    from ..names import names_rule
+
+    names_rule(ctx)
+
+
+RULES = [r1_precedence_order, r2_associativity, r3_evaluation_dispatch, r4_literal_bases, r5_single_evaluator, r6_identifier_values, rb_binding_agreement, rm_no_process_lifetime_results, ru_names_bound]
